@@ -74,6 +74,16 @@ check("C11", "TLC check of get-put on LPath + replay comparing every emitted pat
       "DESIGN.md §4.3, §6 C11")
 
 
+check("C14", "TLC check of Reprint laws (stutter, idempotence) + replay of printed text against spec trees/histories + differential",
+      "TLC checks on every case of families F1-F6 that the normal form a print/parse round produces renders like the "
+      "original (Render(Norm t) = Render t) and is a fix-point (Norm(Norm t) = Norm t); the real stringifier's output "
+      "(plain and mangled) for every concretised case and for update histories must re-parse without diagnostics "
+      "above Note, print to itself, and satisfy the specification's trees after every step; the expression trees of "
+      "WxmlExpr, the repository's test inputs and hand-picked spellings are checked by an original-vs-printed "
+      "differential on generated data.",
+      "DESIGN.md §4.8, §6 C14")
+
+
 def main():
     props = [json.loads(l) for l in open(os.path.join(HERE, "properties.jsonl"))]
     ids = [p["id"] for p in props]
